@@ -20,6 +20,8 @@ CONFIGS = {
     "flush-twice":   [(1, "op", 0, "walk"), (2, "flush", 1, ""), (3, "flush", 1, "")],
     "flush-idle":    [(1, "flush", 9, ""), (2, "op", 0, "mkdir"), (3, "flush", 2, "")],
     "flush-rename":  [(1, "op", 0, "renameat"), (2, "flush", 1, ""), (3, "flush", 7, "")],
+    # a Tflush that re-uses the busy tag it names: dropped like any request with a busy tag
+    "flush-self-busy": [(1, "op", 0, "read"), (2, "flush", 1, ""), (1, "flush", 1, "")],
     "dup-tag":       [(1, "op", 0, "getattr"), (1, "op", 0, "read"), (2, "op", 0, "write")],
     "tag-reuse":     [(1, "op", 0, "getattr"), (2, "op", 0, "read"), (1, "op", 0, "walk")],
     "bad-frame":     [(1, "op", 0, "read"), (2, "bad", 0, ""), (3, "op", 0, "getattr")],
@@ -128,7 +130,10 @@ def run(prop, tier, seed, configs, own, rule, maxscripts, batch=None):
                 if not confirm(s, inp, r_["script"], g, sc):
                     accepted += 1
                     continue
-                mine = [b for b in bad if own(name, sc, b)]
+                detail = None
+                if not ok:
+                    detail = {"obs": r_["obs"][at], "allowed": allowed, "reqs": reqs}
+                mine = [b for b in bad if own(name, sc, b, detail if b is bad[0] and not ok else None)]
                 if mine:
                     p = vlib.save_replay(prop, rep, "connloop")
                     verdict.violation(p, "%s: %s" % (name, mine[0]))
@@ -174,6 +179,28 @@ def run(prop, tier, seed, configs, own, rule, maxscripts, batch=None):
         "bounded: 3 requests per configuration; goroutine pool of 5 in the model",
     ], time.time() - t0, len(verdict.violations))
     return verdict.finish()
+
+
+def flush_related(detail):
+    """True if, against every alternative the specification allows, the observation differs in a
+    request that is a Tflush or the target of one (C14's subject); a difference confined to other
+    requests - e.g. an independent request not served while another is blocked - is C06's alone."""
+    if not detail:
+        return True
+    reqs = detail["reqs"]
+    tags_flushed = {q[2] for q in reqs if q[1] == "flush"}
+    special = {i + 1 for i, q in enumerate(reqs) if q[1] == "flush" or q[0] in tags_flushed}
+    ob = detail["obs"]
+    got = (set(ob.get("replies", [])), set(ob.get("gated", [])), bool(ob.get("exited")))
+    for a in detail["allowed"] or []:
+        if a is None:
+            continue
+        diff = (got[0] ^ set(a[0])) | (got[1] ^ set(a[1]))
+        if got[2] != a[2]:
+            return True
+        if not (diff & special):
+            return False
+    return True
 
 
 def confirm(scratch, inp, idx, g, sc):
